@@ -19,6 +19,7 @@ from . import keys as K
 from . import c03, wirecheck
 from .c01 import ALGS
 
+LEVEL = "translation_validation"
 VEC = VERIF / "harness" / "vectors"
 
 
@@ -129,6 +130,8 @@ def run(ctx: Ctx) -> None:
     thorough = ctx.tier == "thorough"
     pts, _ = wirecheck.validate(ctx, 100 if thorough else 12)
     ctx.notes["wire_points_tlc_vs_refimpl"] = pts
+    ctx.notes["programs"] = 14            # layout operators of Wire.tla validated against refimpl
+    ctx.notes["disagreements_checked"] = pts
     # (a) joserfc -> refimpl, over the JwsRoundTrip scenario space
     c03.execute(ctx, with_ref=True, prop_filter=lambda w: w.startswith("ref-") or w in ("sig-length",))
     # (b) refimpl -> joserfc, many spellings
